@@ -71,6 +71,13 @@ def build_driver():
 
 def build_harness(release=False):
     h = os.path.join(ROOT, 'harness')
+    if REPO != '/repo':
+        # experiments against a private copy of the crate (VERIF_REPO): same harness, path dependency rewritten
+        alt = os.path.join(BUILD, 'harness-alt')
+        shutil.copytree(h, alt, dirs_exist_ok=True)
+        t = open(os.path.join(h, 'Cargo.toml')).read().replace('path = "/repo"', 'path = "%s"' % REPO)
+        open(os.path.join(alt, 'Cargo.toml'), 'w').write(t)
+        h = alt
     lock = os.path.join(h, 'Cargo.lock')
     if not os.path.exists(lock):
         shutil.copy(os.path.join(REPO, 'Cargo.lock'), lock)
